@@ -283,7 +283,10 @@ def monRun : (commit : Nat) → (first : Nat) → List POp → List POut → Opt
   (failure counter, `snapshot_push_backoff_duration` = min(base · 2^min(count,20), cap)) and raft.rs
   `SnapshotPushCompleted{success}` → `init_peers_next_index_and_match_index(last, [peer])`.
   One step = one heartbeat round `dt` ms after the previous one (dt ≥ the heartbeat interval), the push attempt
-  completes within the round; the transport's push fails `failsLeft` more times. -/
+  completes within the round; the transport's push fails `failsLeft` more times.
+  Stream break (`wBreak`): the ack stream yields an error → the recv task sets `stream_broken` and emits
+  `PeerStreamError` → raft.rs resets next_index to match_index + 1 (match 0 here). The worker notices the flag only
+  when it pops its next task: that task (Append or Snapshot) is dropped and the stream is re-opened. -/
 
 structure WState where
   first : Nat
@@ -297,6 +300,8 @@ structure WState where
   failCount : Nat             -- `snapshot_failure_count`
   retryAt : Option Nat        -- `snapshot_next_retry_at`
   inProgress : Bool           -- the worker's `snapshot_in_progress`
+  broken : Bool               -- the worker's `stream_broken` (set by its recv task when the ack stream fails)
+  hasWorker : Bool            -- a worker (and its stream) exists: some task has been handed over
 deriving Repr
 
 inductive WCall where
@@ -322,37 +327,62 @@ def wStep (s0 : WState) (dt : Nat) : WState × List WCall :=
     | none => (s, [])
     | some _ =>
         if inBackoff s0.retryAt (s0.now + dt) then (s, [])
-        else if s.inProgress then (s, [])            -- worker drops the duplicate Snapshot task
+        else if s.broken then ({ s with broken := false, hasWorker := true }, [])   -- popped task dropped, stream re-opened
+        else if s.inProgress then ({ s with hasWorker := true }, [])   -- worker drops the duplicate Snapshot task
         else if s.failsLeft > 0 then
           -- flag set, push fails, flag cleared, SnapshotPushCompleted{false}
           let c := s.failCount + 1
-          ({ s with failsLeft := s.failsLeft - 1, inProgress := false, failCount := c,
+          ({ s with hasWorker := true, failsLeft := s.failsLeft - 1, inProgress := false, failCount := c,
                     retryAt := some (s.now + pushBackoff s.base s.cap c) }, [.pushFailed])
         else
-          ({ s with inProgress := false, failCount := 0, retryAt := none, next := s.last + 1 }, [.pushOk])
+          ({ s with hasWorker := true, inProgress := false, failCount := 0, retryAt := none, next := s.last + 1 },
+            [.pushOk])
   else
     -- AppendEntries: prev = next - 1, entries next..=last, speculative next_index advance
-    let s' := if s.next ≤ s.last then { s with next := s.last + 1 } else s
-    if s.inProgress then (s', []) else (s', [.append (s.next - 1)])
+    let s' := if s.next ≤ s.last then { s with next := s.last + 1, hasWorker := true } else { s with hasWorker := true }
+    if s.broken then ({ s' with broken := false }, [])
+    else if s.inProgress then (s', []) else (s', [.append (s.next - 1)])
 
-def wRun : WState → List Nat → List (List WCall × Nat)
+/-- the ack stream of the peer fails: `stream_broken`, `PeerStreamError` → next_index := match_index + 1 = 1 -/
+def wBreak (s : WState) : WState :=
+  if s.hasWorker && !s.broken then { s with broken := true, next := 1 } else s
+
+inductive WOp where
+  | hb (dt : Nat)
+  | brk
+deriving Repr, DecidableEq
+
+def wApply (s : WState) : WOp → WState × List WCall
+  | .hb dt => wStep s dt
+  | .brk => (wBreak s, [])
+
+def wRun : WState → List WOp → List (List WCall × Nat)
   | _, [] => []
-  | s, dt :: dts => let (s', cs) := wStep s dt; (cs, s'.next) :: wRun s' dts
+  | s, op :: ops => let (s', cs) := wApply s op; (cs, s'.next) :: wRun s' ops
 
-/-- monitor of the worker kind, on the implementation's per-round observations (calls, next_index) -/
+/-- monitor of the worker kind, on the implementation's per-op observations (calls, next_index): whenever a push /
+    an append is due, something must reach the peer — except in the one round that consumes a stream break. -/
 def wMon (first last : Nat) (snap : Option Nat) (base cap : Nat) :
-    (now next failCount : Nat) → (retryAt : Option Nat) → List Nat → List (List WCall × Nat) → Option String
-  | _, _, _, _, [], _ => none
-  | _, _, _, _, _ :: _, [] => some "missing-observation"
-  | now0, next, fc, ra, dt :: dts, (calls, next') :: os =>
+    (now next failCount : Nat) → (retryAt : Option Nat) → (broken hadBreak hasWorker : Bool) →
+    List WOp → List (List WCall × Nat) → Option String
+  | _, _, _, _, _, _, _, [], _ => none
+  | _, _, _, _, _, _, _, _ :: _, [] => some "missing-observation"
+  | now, _, fc, ra, broken, hadBreak, hw, .brk :: ops, (_, next') :: os =>
+      wMon first last snap base cap now next' fc ra (broken || hw) (hadBreak || hw) hw ops os
+  | now0, next, fc, ra, broken, hadBreak, hw, .hb dt :: ops, (calls, next') :: os =>
       let now := now0 + dt
       let target := decide (first > 1) && decide (next < first)
       let pushed := calls.contains .pushFailed || calls.contains .pushOk
+      let appended := calls.any (fun c => match c with | .append _ => true | _ => false)
       let due := target && snap.isSome && (match ra with | some r => decide (r ≤ now) | none => true)
-      if due && !pushed then
-        some (if fc > 0 then "peer-never-served-after-failed-push" else "lagging-peer-push-not-attempted")
-      else if !target && !(calls.any (fun c => match c with | .append _ => true | _ => false)) then
-        some "peer-append-dropped"
+      let taskSent := due || !target
+      -- the round that consumes a stream break may deliver nothing
+      if taskSent && broken && !pushed && !appended then
+        wMon first last snap base cap now next' fc ra false hadBreak true ops os
+      else if due && !pushed then
+        some (if fc > 0 then "peer-never-served-after-failed-push"
+              else if hadBreak then "peer-never-served-after-stream-break" else "lagging-peer-push-not-attempted")
+      else if !target && !appended then some "peer-append-dropped"
       else if calls.contains .pushOk && next' != last + 1 then some "next-index-not-reset-after-push"
       else if calls.contains .pushOk && (match snap with | some m => decide (m + 1 < first) | none => true) then
         some "pushed-snapshot-behind-boundary"
@@ -360,6 +390,6 @@ def wMon (first last : Nat) (snap : Option Nat) (base cap : Nat) :
         let fc' := if calls.contains .pushOk then 0 else if calls.contains .pushFailed then fc + 1 else fc
         let ra' := if calls.contains .pushOk then none
                    else if calls.contains .pushFailed then some (now + pushBackoff base cap (fc + 1)) else ra
-        wMon first last snap base cap now next' fc' ra' dts os
+        wMon first last snap base cap now next' fc' ra' (broken && !taskSent) hadBreak (hw || taskSent) ops os
 
 end DEngine.Purge
